@@ -226,6 +226,16 @@ def judge(case, res):
     if base == "binary":
         for i in range(n):
             want = 1 if (outs[i] is not None and outs[i] > 0.0) else 0
+            if res.get("mouts") is not None:
+                # a team: winner takes all -- the member with the greatest sureness |value| (first one on ties)
+                best = None
+                for t in res["mouts"][i]:
+                    v = tok_value(t)
+                    v = 0.0 if v is None else v
+                    cand = (1 if v > 0.0 else 0, abs(v))
+                    if best is None or cand[1] > best[1]:
+                        best = cand
+                want = best[0]
             if tags[i][0] != want:
                 bad.append(("binary:tag", "binary tag of output %r is %d" % (outs[i], tags[i][0])))
     wrong = [tags[i][0] != labels[i] for i in range(n)]
@@ -423,6 +433,30 @@ def gen_team_err(rng, thorough):
     return {"kind": kind, "classes": 0, "prog": "T:" + "+".join(members), "rows": rows}
 
 
+def gen_team_cls(rng, thorough):
+    """a team<i_mep> under a classification evaluator: one classifier per member, winner takes all"""
+    c = gen_case_cls(rng, thorough)
+    while c["prog"] != "X" or any(not r[2].startswith("i:") or int(r[2][2:]) < 0 or int(r[2][2:]) >= c["classes"] for r in c["rows"]):
+        c = gen_case_cls(rng, thorough)
+    members = ["X", "Y"]
+    if rng.random() < 0.4:
+        members.append(rng.choice(["X", "Y", "K:" + hx(rng.gauss(0, 3))]))
+    if len(members) == 3 and rng.random() < 0.3:
+        members.append(rng.choice(["X", "Y"]))
+    rng.shuffle(members)
+    for r in c["rows"]:
+        if r[0].startswith("s:"):
+            r[0] = D(rng.gauss(0, 3))
+        q = rng.random()
+        if q < 0.15:
+            r[1] = "v"
+        elif q < 0.5:
+            r[1] = D((tok_value(r[0]) or 0.0) + rng.gauss(0, 2))
+        # else: the unrelated column 2 already there
+    c["prog"] = "T:" + "+".join(members)
+    return c
+
+
 def gen_case_cls(rng, thorough):
     kind = rng.choice(CLS_KINDS)
     classes = 2 if kind == "binary" else rng.randint(2, 5)
@@ -509,6 +543,10 @@ def fixed_cases():
         out.append({"kind": k, "classes": 0, "prog": "T:X+Y", "rows": [["v", "v", D(1.0), 2], [D(4.0), "v", D(4.0), 0], ["v", D(5.0), D(4.0), 0]]})
         out.append({"kind": k, "classes": 0, "prog": "T:X+Y+K:" + hx(1.5e308) + "+X",
                     "rows": [[D(1.5e308), D(1.5e308), D(1.5e308), 0], [D(1.5e308), "v", D(1.5e308), 1]]})
+    for k in CLS_KINDS:
+        out.append({"kind": k, "classes": 2, "prog": "T:X+Y",
+                    "rows": [[D(1.0), D(3.0), "i:1", 0], [D(-1.0), D(-2.0), "i:0", 0], ["v", D(5.0), "i:1", 2], ["v", "v", "i:0", 1]]})
+        out.append({"kind": k, "classes": 2, "prog": "T:X+Y", "rows": [[D(1.0), D(-3.0), "i:1", 0], [D(2.0), D(1.0), D(1.0), 4]]})
     out.append({"kind": "tfixed", "ids": [4]})
     out.append({"kind": "tdist", "ids": [7]})
     out.append({"kind": "tdist", "ids": [5, 3, 5, 1, 3, 3, 9, 1, 5]})
@@ -684,6 +722,8 @@ def run(ck):
             cases.append(gen_case_cls(rng, ck.thorough))
         for _ in range(12000 if ck.thorough else 500):
             cases.append(gen_team_err(rng, ck.thorough))
+        for _ in range(6000 if ck.thorough else 250):
+            cases.append(gen_team_cls(rng, ck.thorough))
         for _ in range(2000 if ck.thorough else 60):
             cases.append({"kind": "tdist", "ids": [rng.randint(0, 12) for _ in range(rng.randint(1, 30))]})
         # permutations of one dataset: order sensitivity of the running mean is reported
